@@ -285,8 +285,23 @@ func (b *bufRun) sequence(steps []BStep) {
 					r.SwapUint64(binary.BigEndian.Uint64(nv))
 				default:
 					n := len(x.val)
-					if b.rnd.Intn(2) == 0 && n < 65535 {
-						n++ // a result of another length
+					switch b.rnd.Intn(8) { // a result of the same or of another length: longer, shorter, empty
+					case 0, 1:
+						if n < 65535 {
+							n++
+						}
+					case 2:
+						if n > 0 {
+							n--
+						}
+					case 3:
+						n /= 2
+					case 4:
+						n = 0
+					case 5:
+						if n*2+3 <= 65535 {
+							n = n*2 + 3
+						}
 					}
 					nv = make([]byte, n)
 					for j := range nv {
